@@ -511,6 +511,238 @@ def rw_fold_loop(text, nth, fired, fname):
     raise Undecided('lost-anchor', 'fold %d: no such expression in %s' % (nth, fname))
 
 
+def rw_fold_assign(text, nth, fired, fname):
+    """R31 (added for unit `permissions`, directive `@@fold_assign k`; sibling of R29 for a closure whose
+    body is an arbitrary expression): the nth expression of the form
+        ITER.fold(INIT, |[mut] ACC, X| BODY)
+    becomes the definition of Iterator::fold
+        { let mut ACC = INIT; for X in ITER { ACC = BODY; } ACC }
+    BODY is the verbatim source text and stays on its lines.  Guards (else UNDECIDED): ACC and X are
+    single identifiers, BODY contains no `return`, `?`, `break`, `continue` (they would change meaning
+    when the closure body becomes a loop body), ITER starts at the beginning of a statement / after `=`
+    (it is the whole receiver chain).  The new `for` is an ordinary loop for @@name_for / @@loop /
+    @@loop_body_start / @@loop_body_end numbering."""
+    src = Src(text)
+    cnt = 0
+    for i in range(src.n()):
+        if not (src.s(i) == '.' and src.s(i + 1) == 'fold' and src.s(i + 2) == '('):
+            continue
+        cnt += 1
+        if cnt != nth:
+            continue
+        op, close = i + 2, src.match[i + 2]
+        k = op + 1
+        while k < close and src.s(k) != ',':
+            if src.s(k) in rscan.OPEN: k = src.match[k]
+            k += 1
+        p = k + 1
+        if k >= close or src.s(p) != '|':
+            raise Undecided('unsupported-construct', 'fold %d in %s: not `fold(INIT, |ACC, X| BODY)`' % (nth, fname))
+        p += 1
+        if src.s(p) == 'mut':
+            p += 1
+        acc = src.s(p)
+        if not (re.match(r'^[A-Za-z_]\w*$', acc) and src.s(p + 1) == ',' and re.match(r'^[A-Za-z_]\w*$', src.s(p + 2))
+                and src.s(p + 3) == '|'):
+            raise Undecided('unsupported-construct', 'fold %d in %s: closure parameters are not `|[mut] ACC, X|`' % (nth, fname))
+        x = src.s(p + 2)
+        b0 = p + 4
+        b1 = close - 1
+        if src.s(b1) == ',':
+            b1 -= 1
+        if b1 < b0:
+            raise Undecided('unsupported-construct', 'fold %d in %s: empty closure body' % (nth, fname))
+        for q in range(b0, b1 + 1):
+            if src.s(q) in ('return', '?', 'break', 'continue') and src.t(q).kind in ('ident', 'punct'):
+                raise Undecided('unsupported-construct', 'fold %d in %s: `%s` in the closure body' % (nth, fname, src.s(q)))
+        j = i - 1
+        while j >= 0:
+            sj = src.s(j)
+            if sj in rscan.CLOSE:
+                j = src.match[j] - 1
+                continue
+            if sj in (';', '{', '}', '=', 'return'):
+                break
+            j -= 1
+        start = j + 1
+        it_txt = text[src.t(start).pos:src.t(i - 1).end]
+        init_txt = text[src.t(op + 1).pos:src.t(k - 1).end]
+        whole_a, whole_b = src.t(start).pos, src.t(close).end
+        body_a, body_b = src.t(b0).pos, src.t(b1).end
+        pre_nl = text[whole_a:body_a].count('\n')
+        post_nl = text[body_b:whole_b].count('\n')
+        new = ('{ let mut %s = %s; for %s in %s {' % (acc, init_txt.replace('\n', ' '), x, it_txt.replace('\n', ' '))
+               + '\n' * pre_nl + ' %s = ' % acc + text[body_a:body_b] + '; } %s }' % acc + '\n' * post_nl)
+        fired.append(('R31', src.line_of(whole_a), 'ITER.fold(INIT, |acc, x| BODY) -> { let mut acc = INIT; for x in ITER { acc = BODY; } acc }'))
+        return text[:whole_a] + new + text[whole_b:]
+    raise Undecided('lost-anchor', 'fold %d: no such expression in %s' % (nth, fname))
+
+
+INLINED_BAR = '\ue000'   # see rw_inline_helpers (R32)
+
+
+def _simple_binders(src, lo, hi):
+    """names bound by `let` patterns, closure parameter lists and `ident:` parameters in [lo,hi) — a
+    deliberately generous approximation used by the name-capture guard of R32"""
+    out = set()
+    i = lo
+    while i < hi:
+        s = src.s(i)
+        if s == 'let':
+            j = i + 1
+            depth = 0
+            while j < hi and not (depth == 0 and src.s(j) in ('=', ':', ';')):
+                if src.s(j) in rscan.OPEN: depth += 1
+                elif src.s(j) in rscan.CLOSE: depth -= 1
+                elif src.t(j).kind == 'ident' and re.match(r'^[a-z_]\w*$', src.s(j)) and src.s(j) not in ('mut', 'ref') \
+                        and src.s(j + 1) not in ('::', '(', '{'):
+                    out.add(src.s(j))
+                j += 1
+        i += 1
+    for ci in closure_starts(src, lo, hi):
+        if src.s(ci) == '||':
+            continue
+        j = ci + 1
+        while j < hi and src.s(j) != '|':
+            if src.t(j).kind == 'ident' and re.match(r'^[a-z_]\w*$', src.s(j)) and src.s(j) not in ('mut', 'ref') \
+                    and src.s(j + 1) not in ('::', '(', '{') and src.s(j - 1) != ':':
+                out.add(src.s(j))
+            if src.s(j) in rscan.OPEN: j = src.match[j]
+            j += 1
+    for i in range(lo, hi - 1):
+        if src.t(i).kind == 'ident' and src.s(i + 1) == ':' and src.s(i + 2) != ':' and src.s(i - 1) in ('(', ',', 'mut'):
+            out.add(src.s(i))
+    return out
+
+
+def rw_inline_helpers(text, ft, security, fired):
+    """R32 (added for unit `permissions`, directive `@@inline_helpers`): a call `NAME(ARGS)` of a free
+    function NAME that is defined at the TOP LEVEL OF THE SAME SOURCE FILE as the extracted function (and
+    is not a method call, path call or macro) is replaced by the function's meaning
+        { let vx_a1 = ARG1; ..; let P1: T1 = vx_a1; ..; <body block of NAME> }
+    (arguments evaluated left to right, then bound to the parameters under their declared types, then
+    the body).  Purpose: a change that moves part of a function under contract into a NEW helper (one
+    the unit cannot name, because it did not exist when the unit was written) is still judged by the
+    function's contract instead of becoming UNDECIDED.  The helper's text is taken from the working
+    tree on every run; it is put on ONE line (comments dropped) so that the line numbers of the
+    function are kept.  Inside the inlined text a closure parameter written `_` becomes a fresh unused
+    variable `_vx_ign_n` (Verus closures take variables only; an unused binding means the same).
+    Guards (else UNDECIDED): NAME is not generic and has no `self`; every parameter is `[mut] ident: Type`
+    without a named lifetime; the body has no `return`, `?`, `await` (inlining would change where they
+    lead) and does not mention NAME; no identifier of the body that is not bound by the helper itself
+    coincides with a binding of the calling function (no name capture); at most 8 inlinings."""
+    repo, rel = getattr(ft, 'repo', None), getattr(ft, 'rel', None)
+    if repo is None or rel is None:
+        raise Undecided('unsupported-construct', 'inline_helpers: no source file for %s' % ft.name)
+    fsrc = load_src(repo, rel)
+    helpers = {}
+    for it in rscan.items_in(fsrc, 0, fsrc.n()):
+        if it.kind == 'fn' and it.open_si is not None and cfg_ok(it.attrs, security):
+            helpers.setdefault(it.name, []).append(it)
+    own = ft.selector.rsplit('::', 1)[-1] if '::' not in ft.selector else None
+    count = 0
+    while True:
+        src = Src(text)
+        hit = None
+        for i in range(src.n() - 1):
+            t = src.t(i)
+            if t.kind == 'ident' and t.s in helpers and t.s != own and src.s(i + 1) == '(' \
+                    and src.s(i - 1) not in ('.', '::', 'fn', '!'):
+                hit = i
+                break
+        if hit is None:
+            return text
+        count += 1
+        if count > 8:
+            raise Undecided('unsupported-construct', 'inline_helpers: more than 8 inlinings in %s' % ft.name)
+        name = src.s(hit)
+        if len(helpers[name]) != 1:
+            raise Undecided('unsupported-construct', 'inline_helpers: %d free functions named %s' % (len(helpers[name]), name))
+        it = helpers[name][0]
+        fn_si = next(k for k in range(it.start_si, it.open_si) if fsrc.s(k) == 'fn')
+        po = fn_si + 2
+        if fsrc.s(po) != '(':
+            raise Undecided('unsupported-construct', 'inline_helpers: helper %s is generic' % name)
+        pc = fsrc.match[po]
+        params = []
+        cur = []
+        q = po + 1
+        while q < pc:
+            s_ = fsrc.s(q)
+            if s_ in rscan.OPEN:
+                cur.extend(range(q, fsrc.match[q] + 1)); q = fsrc.match[q] + 1; continue
+            if s_ == ',':
+                params.append(cur); cur = []
+            else:
+                cur.append(q)
+            q += 1
+        if cur: params.append(cur)
+        pdecl = []
+        for pr in params:
+            toks = [fsrc.s(x) for x in pr]
+            mut = toks and toks[0] == 'mut'
+            if mut: toks, pr = toks[1:], pr[1:]
+            if len(toks) < 3 or toks[1] != ':' or not re.match(r'^[A-Za-z_]\w*$', toks[0]) or toks[0] == 'self':
+                raise Undecided('unsupported-construct', 'inline_helpers: parameter of %s is not `ident: Type`' % name)
+            if any(fsrc.t(x).kind == 'lifetime' and fsrc.s(x) != "'static" for x in pr[2:]):
+                raise Undecided('unsupported-construct', 'inline_helpers: named lifetime in a parameter of %s' % name)
+            pdecl.append((toks[0], ' '.join(toks[2:]), mut))
+        body_toks = list(range(it.open_si, it.end_si + 1))
+        for x in body_toks:
+            if fsrc.t(x).kind in ('ident', 'punct') and fsrc.s(x) in ('return', '?', 'await', name):
+                raise Undecided('unsupported-construct', 'inline_helpers: `%s` in the body of helper %s' % (fsrc.s(x), name))
+        # name capture guard
+        own_b = _simple_binders(fsrc, it.open_si, it.end_si + 1) | {p_[0] for p_ in pdecl}
+        caller_b = _simple_binders(src, 0, src.n())
+        for x in body_toks:
+            tx = fsrc.t(x)
+            if tx.kind == 'ident' and tx.s in caller_b and tx.s not in own_b and fsrc.s(x - 1) != '.':
+                raise Undecided('unsupported-construct', 'inline_helpers: `%s` of helper %s would be captured by a binding of %s' % (tx.s, name, ft.name))
+        # `_` closure parameters -> fresh variables
+        # The bars of the helper's closures are written with the private-use character U+E000 until the
+        # function is assembled (splice_function restores them): the closures of inlined text must not
+        # shift the ordinals of the `@@closure k` annotations, which count the closures of the function itself.
+        ign = {}
+        for ci in closure_starts(fsrc, it.open_si + 1, it.end_si):
+            if fsrc.s(ci) == '||':
+                ign[ci] = INLINED_BAR + INLINED_BAR
+                continue
+            ign[ci] = INLINED_BAR
+            j = ci + 1
+            while j < it.end_si and fsrc.s(j) != '|':
+                if fsrc.s(j) == '_' and fsrc.s(j - 1) in ('|', ',') and fsrc.s(j + 1) in ('|', ',', ':'):
+                    ign[j] = '_vx_ign_%d' % (len(ign) + 1 + 100 * count)
+                if fsrc.s(j) in rscan.OPEN: j = fsrc.match[j]
+                j += 1
+            ign[j] = INLINED_BAR
+        body_txt = ' '.join(ign.get(x, fsrc.s(x)) for x in body_toks)
+        # arguments
+        ao, ac = hit + 1, src.match[hit + 1]
+        args, cur = [], None
+        q = ao + 1
+        a_start = q
+        while q < ac:
+            if src.s(q) in rscan.OPEN:
+                q = src.match[q] + 1; continue
+            if src.s(q) == ',':
+                args.append((a_start, q - 1)); a_start = q + 1
+            q += 1
+        if a_start < ac:
+            args.append((a_start, ac - 1))
+        if len(args) != len(pdecl):
+            raise Undecided('unsupported-construct', 'inline_helpers: %s called with %d arguments, declared with %d' % (name, len(args), len(pdecl)))
+        pre = ''
+        for n_, (a0, a1) in enumerate(args):
+            pre += 'let vx_a%d_%d = %s; ' % (count, n_ + 1, text[src.t(a0).pos:src.t(a1).end].replace('\n', ' '))
+        for n_, (pn, pty, mut) in enumerate(pdecl):
+            pre += 'let %s%s: %s = vx_a%d_%d; ' % ('mut ' if mut else '', pn, pty, count, n_ + 1)
+        a, b = src.t(hit).pos, src.t(ac).end
+        new = '{ ' + pre + body_txt + ' }' + keep_newlines(text[a:b])
+        fired.append(('R32', src.line_of(a), 'call of same-file helper %s(..) inlined (helper text sha256 %s)'
+                      % (name, hashlib.sha256(fsrc.text[fsrc.t(it.start_si).pos:fsrc.t(it.end_si).end].encode()).hexdigest()[:16])))
+        text = text[:a] + new + text[b:]
+
+
 def rw_chain_loop(text, nth, ctype, add_method, fired, fname):
     """R25 (added for unit `acknack`, directive `@@chain_loop k <CollectionType> <insert|push>`): the
     k-th iterator-adapter chain of the shape
@@ -1352,6 +1584,8 @@ def splice_function(ft, directives, security=False):
     """returns list of (text_line, origin) for the function with contracts spliced"""
     fired = ft.fired
     text = ft.orig
+    if any(d.kind == 'inline_helpers' for d in directives):
+        text = rw_inline_helpers(text, ft, security, fired)   # R32 (unit permissions); before R7/R1/R16 so that they apply to the inlined text too
     text = rw_cfg_statements(text, security, fired)
     text = rw_log_macros(text, fired)
     text = rw_format(text, fired)
@@ -1392,6 +1626,9 @@ def splice_function(ft, directives, security=False):
     for d in directives:
         if d.kind == 'fold_loop':
             text = rw_fold_loop(text, int(d.arg.split()[0]) if d.arg.strip() else 1, fired, ft.name)   # R29 (unit qos_plcdr)
+    for d in directives:
+        if d.kind == 'fold_assign':
+            text = rw_fold_assign(text, int(d.arg.split()[0]) if d.arg.strip() else 1, fired, ft.name)   # R31 (unit permissions)
     for d in directives:
         if d.kind == 'chain_loop':
             # R25: `@@chain_loop k <CollectionType> <insert|push>`
@@ -1959,6 +2196,8 @@ def splice_function(ft, directives, security=False):
                     o3['loop_label'] = loop_labels[cur_line]
                 lines.append((p, o3))
         cur_line += 1
+    if any(INLINED_BAR in tx for tx, _ in lines):
+        lines = [(tx.replace(INLINED_BAR, '|'), o) for tx, o in lines]   # R32: closure bars of inlined helper text
     return lines
 
 
